@@ -29,6 +29,10 @@ package camelcase
 //@   lit 1 nopanic
 //@   lit 1 noglobals
 
+//@ func LowerCamelCase
+//@   pure
+//@   note package-level function value (= makeCase("", ...)): assumed total and without heap effects for callers; justified by makeCase lit 1 nopanic/noglobals (proved) and the transWord closures (strings.ToLower / bytes.EqualFold / cases.Title: assumed pure)
+
 // ---- govc prelude: ghost helpers of the clause language (identical in every contracts_verif.go) ----
 
 func spec_old[T any](v T) T                             { return v }
